@@ -142,6 +142,21 @@ Proof.
   apply verdict_denied_inv. rewrite all_sites_check_the_same_hop by exact Hp. rewrite Hs. exact Hd.
 Qed.
 
+Theorem every_write_route_denies_private : forall h r p v m pk,
+  route_writes r = Some (p, v) -> names_ok p ->
+  spec_path h [] top p (Some v) = Denied m pk ->
+  route_run h r = Err (EPriv m pk) /\ route_spec h r = Denied m pk.
+Proof.
+  intros h r p v m pk Hr Hp Hd.
+  destruct r as [o|q|q|q args|q args|root rest|q|q z]; try discriminate.
+  destruct o as [q|q z|q args|w param a q args|t s]; try discriminate.
+  cbn [route_writes] in Hr. inversion Hr; subst.
+  split.
+  - unfold PkgRoutes.route_run, run_op. apply verdict_denied_inv.
+    rewrite dot_path_is_visible by exact Hp. exact Hd.
+  - exact Hd.
+Qed.
+
 (* ---------- hget with a dot key is the dot path root.rest ---------- *)
 Lemma visible_step : forall h c n n2 p setv,
   visible h c (n :: n2 :: p) setv =
